@@ -128,9 +128,19 @@ func (p *Proxy) SetAttr(name string, value Object) error {
 
 		if field.CanSet() {
 			if result == nil {
+				if field.Kind() == reflect.Struct {
+					return errz.TypeErrorf("type error: cannot set struct field %s to nil", name)
+				}
 				field.SetZero()
 			} else {
-				field.Set(reflect.ValueOf(result))
+				rv := reflect.ValueOf(result)
+				// A struct-valued field is exposed as a pointer to the struct
+				// (see newGoField), so store what the pointer refers to.
+				if field.Kind() == reflect.Struct && rv.Kind() == reflect.Pointer &&
+					!rv.IsNil() && rv.Type().Elem() == field.Type() {
+					rv = rv.Elem()
+				}
+				field.Set(rv)
 			}
 			return nil
 		} else {
